@@ -138,7 +138,7 @@ class Effects:
             if isinstance(n, ast.Raise):
                 self.direct_raise[name].add(raise_name(n))
             if isinstance(n, ast.Call) and isinstance(n.func, ast.Name) and n.func.id == 'warn':
-                self.direct_raise[name].add('UserWarning')
+                self.direct_raise[name].add(warn_category(n))
             if isinstance(n, ast.Call) and isinstance(n.func, ast.Attribute) \
                     and isinstance(n.func.value, ast.Call) \
                     and isinstance(n.func.value.func, ast.Name) \
@@ -184,3 +184,14 @@ def raise_name(n: ast.Raise) -> str:
     if isinstance(e, ast.Name):
         return e.id
     return ast.unparse(e)
+
+
+def warn_category(call: ast.Call) -> str:
+    """the category a ``warn(message[, category])`` call issues: UserWarning unless one is named"""
+    cat = call.args[1] if len(call.args) > 1 else next((k.value for k in call.keywords if k.arg == 'category'), None)
+    if cat is None and call.args and isinstance(call.args[0], ast.Call) and isinstance(call.args[0].func, ast.Name) \
+            and call.args[0].func.id.endswith('Warning'):
+        cat = call.args[0].func          # warn(SomeWarning('...'))
+    if cat is None or (isinstance(cat, ast.Constant) and cat.value is None):
+        return 'UserWarning'
+    return cat.id if isinstance(cat, ast.Name) else ast.unparse(cat)
